@@ -42,7 +42,7 @@ fn outcome<T>(r: &VfsResult<T>) -> Result<(), EC> { match r { Ok(_) => Ok(()), E
 #[derive(Clone, Copy, Debug, PartialEq)]
 enum Op { CreateDir, CreateFile, Append, RemoveFile, RemoveDir, CreateDirAll, RemoveDirAll, MoveTo, CopyTo, CopyDirTo, MoveDirTo }
 const DEST: &str = "/mv";
-const UNIVERSE: [&str; 11] = ["", "/a", "/ab", "/a/b", "/a/b/c", "/a/a", "/é", "/é/x", "/.h", "/mv", "/r"];
+const UNIVERSE: [&str; 11] = ["", "/a", "/ab", "/a/b", "/a/b/c", "/a/a", "/é", "/é/x", "/..h", "/mv", "/r"];
 
 fn sync_apply(root: &VfsPath, op: Op, p: &str) -> VfsResult<()> {
     let q = root.join(&p[1..])?;
